@@ -14,6 +14,78 @@ from mpmath import iv
 from . import ir
 
 
+def _split_sum(x):
+    """x <= 0 with x a sum: returns (P, Nn) such that x = P - Nn with P, Nn sums of syntactically non-negative-
+    coefficient terms, or None"""
+    terms = x.args if x.op == 'add' else (x,)
+    pos, neg = [], []
+    for t in terms:
+        c = ir._num(t)
+        if c is not None:
+            (pos if c >= 0 else neg).append(ir.const(abs(c)))
+            continue
+        if t.op == 'mul':
+            cs = [ir._num(a) for a in t.args]
+            k = [c for c in cs if c is not None]
+            if k and k[0] < 0:
+                neg.append(ir.mul(ir.const(-k[0]), *[a for a, c in zip(t.args, cs) if c is None]))
+                continue
+        pos.append(t)
+    return pos, neg
+
+
+def _logform(t):
+    """log of a positive product term, distributed: log(a*b) = log a + log b, log(a**b) = b*log a,
+    log(exp a) = a, log(a/b) = log a - log b. Sound when every factor is positive (checked per box)."""
+    if t.op == 'mul':
+        if any((ir._num(a) or 0) < 0 for a in t.args):
+            return ir.log(t)                   # e.g. (-1)*log(v): positive as a whole, atomic
+        return ir.add(*[_logform(a) for a in t.args])
+    if t.op == 'div':
+        return ir.sub(_logform(t.args[0]), _logform(t.args[1]))
+    if t.op == 'pow':
+        return ir.mul(t.args[1], _logform(t.args[0]))
+    if t.op == 'exp':
+        return t.args[0]
+    return ir.log(t)
+
+
+def _factors(t):
+    if t.op in ('mul',):
+        if any((ir._num(a) or 0) < 0 for a in t.args):
+            yield t
+            return
+        for a in t.args:
+            for f in _factors(a):
+                yield f
+    elif t.op == 'div':
+        for a in t.args:
+            for f in _factors(a):
+                yield f
+    elif t.op == 'pow':
+        for f in _factors(t.args[0]):
+            yield f
+    elif t.op == 'exp':
+        return
+    else:
+        yield t
+
+
+def log_goal(goal):
+    """for a goal  P <= N  (one positive product on each side) return (log-form goal, factors that must be > 0)"""
+    if goal.op not in ('le', 'lt'):
+        return None
+    x = ir.sub(goal.args[0], goal.args[1])
+    pos, neg = _split_sum(x)
+    if len(pos) != 1 or len(neg) != 1:
+        return None
+    P, Nn = pos[0], neg[0]
+    if P.op not in ('mul', 'div', 'pow', 'exp'):
+        return None
+    cmp = ir.le if goal.op == 'le' else ir.lt
+    return cmp(_logform(P), _logform(Nn)), list(_factors(P)) + list(_factors(Nn))
+
+
 class Result(object):
     def __init__(self, verdict, seconds, boxes, detail='', model=None):
         self.verdict, self.seconds, self.boxes, self.detail, self.model = verdict, seconds, boxes, detail, model
@@ -27,7 +99,7 @@ def _pt(box):
     return {k: (a + b) / 2 for k, (a, b) in box.items()}
 
 
-def prove_box(hyps, goal, box, max_boxes=200000, ufs=None, ufs_iv=None, min_width=1e-13):
+def prove_box(hyps, goal, box, max_boxes=200000, ufs=None, ufs_iv=None, min_width=1e-13, extended=False):
     """box: dict var-name -> (lo, hi) floats/Fractions."""
     t0 = time.time()
     hyps = [ir.const(h) for h in hyps]
@@ -36,6 +108,13 @@ def prove_box(hyps, goal, box, max_boxes=200000, ufs=None, ufs_iv=None, min_widt
                   mpmath.mpf(Fraction(b).numerator) / Fraction(b).denominator if isinstance(b, Fraction) else mpmath.mpf(b))
               for k, (a, b) in box.items()}]
     n = 0
+    open_boxes = []
+    diff = None
+    lg = log_goal(goal)
+    if lg is not None:
+        diff = ir.sub(lg[0].args[0], lg[0].args[1])
+    elif goal.op in ('le', 'lt') and goal.args[0].sort in ('R', 'I'):
+        diff = ir.sub(goal.args[0], goal.args[1])
     old = mpmath.mp.dps
     mpmath.mp.dps = 30
     iv.dps = 30
@@ -51,7 +130,7 @@ def prove_box(hyps, goal, box, max_boxes=200000, ufs=None, ufs_iv=None, min_widt
             allh = True
             try:
                 for h in hyps:
-                    v = ir.evaluate(h, env, ufs_iv, ctx=iv, cache=cache)
+                    v = ir.evaluate(h, env, ufs_iv, ctx=iv, cache=cache, extended=extended)
                     if v is False:
                         dead = True
                         break
@@ -59,37 +138,89 @@ def prove_box(hyps, goal, box, max_boxes=200000, ufs=None, ufs_iv=None, min_widt
                         allh = False
                 if dead:
                     continue
-                g = ir.evaluate(goal, env, ufs_iv, ctx=iv, cache=cache)
+                g = ir.evaluate(goal, env, ufs_iv, ctx=iv, cache=cache, extended=extended)
             except ir.EvalError:
                 g = None
                 allh = False
+            if g is not True and lg is not None:
+                # same inequality in logarithmic form (tighter enclosures for products of huge and tiny factors)
+                try:
+                    if all(ir.evaluate(ir.gt(f, 0), env, ufs_iv, ctx=iv, cache=cache, extended=extended) is True
+                           for f in lg[1]):
+                        g2 = ir.evaluate(lg[0], env, ufs_iv, ctx=iv, cache=cache, extended=extended)
+                        if g2 is True:
+                            g = True
+                except ir.EvalError:
+                    pass
             if g is True:
                 continue
-            # try the midpoint as a concrete counterexample
+            # try the midpoint (and, for the first boxes, the corners) as a concrete counterexample
             pt = _pt(b)
-            try:
-                mpmath.mp.dps = 50
-                c2 = {}
-                hv = [ir.evaluate(h, pt, ufs, cache=c2) for h in hyps]
-                gv = ir.evaluate(goal, pt, ufs, cache=c2)
-                if all(v is True for v in hv) and gv is False:
-                    return Result('refuted', time.time() - t0, n, model={'env': {k: float(v) for k, v in pt.items()}})
-            except (ir.EvalError, TypeError, ZeroDivisionError, ValueError):
-                pass
-            finally:
-                mpmath.mp.dps = 30
-            # split the widest (relative) side
-            k = max(b, key=lambda k: (b[k][1] - b[k][0]))
+            cands = [pt]
+            if n <= 64 and len(b) <= 5:
+                import itertools
+                ks = list(b)
+                for combo in itertools.product(*[(b[k][0], b[k][1]) for k in ks]):
+                    cands.append(dict(zip(ks, combo)))
+            for cpt in cands:
+                try:
+                    mpmath.mp.dps = 50
+                    c2 = {}
+                    hv = [ir.evaluate(h, cpt, ufs, cache=c2) for h in hyps]
+                    gv = ir.evaluate(goal, cpt, ufs, cache=c2)
+                    if all(v is True for v in hv) and gv is False:
+                        return Result('refuted', time.time() - t0, n,
+                                      model={'env': {k: float(v) for k, v in cpt.items()}})
+                except (ir.EvalError, TypeError, ZeroDivisionError, ValueError):
+                    pass
+                finally:
+                    mpmath.mp.dps = 30
+            # choose the side to split: the one whose bisection shrinks the enclosure of the goal's difference
+            # term most (falls back to the widest side)
+            k = None
+            if diff is not None and len(b) > 1:
+                best = None
+                for kk in b:
+                    lo_, hi_ = b[kk]
+                    if hi_ - lo_ < min_width * 4:
+                        continue
+                    mid_ = (lo_ + hi_) / 2
+                    w = 0
+                    ok = True
+                    for half in ((lo_, mid_), (mid_, hi_)):
+                        e2 = dict(env)
+                        e2[kk] = iv.mpf([half[0], half[1]])
+                        try:
+                            dv = ir.evaluate(diff, e2, ufs_iv, ctx=iv, extended=extended)
+                            wd = dv.b - dv.a
+                            w = max(w, wd) if wd == wd else float('inf')
+                        except ir.EvalError:
+                            ok = False
+                            break
+                    if not ok or w == float('inf') or w != w:
+                        continue
+                    if best is None or w < best[0]:
+                        best = (w, kk)
+                if best is not None:
+                    k = best[1]
+            if k is None:
+                k = max(b, key=lambda k: (b[k][1] - b[k][0]))
             lo, hi = b[k]
             if hi - lo < min_width:
-                return Result('unknown', time.time() - t0, n, 'box below minimum width near %s' %
-                              {kk: float(v) for kk, v in pt.items()})
+                open_boxes.append({kk: float(v) for kk, v in pt.items()})
+                if len(open_boxes) > 200:
+                    return Result('unknown', time.time() - t0, n, '>200 boxes below minimum width, e.g. near %s' %
+                                  open_boxes[0])
+                continue
             mid = (lo + hi) / 2
             b1, b2 = dict(b), dict(b)
             b1[k] = (lo, mid)
             b2[k] = (mid, hi)
             stack.append(b1)
             stack.append(b2)
+        if open_boxes:
+            return Result('unknown', time.time() - t0, n, '%d boxes below minimum width, e.g. near %s' %
+                          (len(open_boxes), open_boxes[0]))
         return Result('proved', time.time() - t0, n)
     finally:
         mpmath.mp.dps = old
